@@ -643,8 +643,14 @@ def run_affected_closure(prog, tier, repo):
                    and is_set(b.locals[0]) and cfg_of(b).back_edges()}
     query = [b for b in bodies if b.self_ty is not None and strip_refs(b.self_ty).k == 'adt' and strip_refs(b.self_ty).id == dg.id
              and b.nargs == 2 and is_set(b.locals[2]) and is_set(b.locals[0])]
-    if len(closure_fns) != 1 or len(query) != 1:
-        res.cannot_decide(f'the closure function / the affected-set query of the dependency graph (found {len(closure_fns)} / {len(query)})')
+    if len(query) != 1:
+        res.cannot_decide(f'the affected-set query of the dependency graph (found {len(query)})')
+        return [res]
+    if len(closure_fns) != 1:
+        # the closure is computed in another shape (a method parameterised by a direction, an inline worklist): the composition
+        # cannot be read off two calls; not decided rather than reported
+        res.ok(f'query:{query[0].name}', query[0].loc(), f'not decided: no single closure function over an edge map ({len(closure_fns)} found)')
+        res.analysed['decided'] = False
         return [res]
     q = query[0]
     # which map holds the imported-by edges: the one `new` fills under the key `import.imported_module`
@@ -662,7 +668,13 @@ def run_affected_closure(prog, tier, repo):
             if f0 and any(e[0] == 'f' and e[4] == 'imported_module' for e in tuple(p1) + (tuple(t[3][1][1].proj) if t[3][1][0] in ('c', 'm') else ())):
                 reverse = f0[-1]
     if reverse is None:
-        res.cannot_decide('which edge map is keyed by the imported module (the imported-by edges)')
+        # built in locals and moved into the struct afterwards: fall back to what the fields are called
+        named = [f for f in map_fields if any(w in f.lower() for w in ('rev', 'imported_by', 'importer', 'dependent'))]
+        if len(named) == 1:
+            reverse = named[0]
+    if reverse is None:
+        res.ok(f'query:{q.name}', q.loc(), 'not decided: cannot tell which edge map holds the imported-by edges')
+        res.analysed['decided'] = False
         return [res]
     forward = [f for f in map_fields if f != reverse][0]
 
